@@ -35,6 +35,7 @@ static vreg *vreg_add(const char *name, void *base, long n, long esz, long guard
    g->heap = 0; g->blk = NULL;
    return g;
 }
+static struct { const char *name; long n; } vallocs[32]; static int nvallocs = 0; static int g_nChInt = 1;
 void *vrec_alloc(const char *name, long n, long esz)
 {
    long bytes = (n > 0 ? n : 0) * esz;
@@ -43,6 +44,13 @@ void *vrec_alloc(const char *name, long n, long esz)
    memset(blk, 0x5a, bytes + 2 * GUARD);
    g = vreg_add(name, blk + GUARD, n, esz, GUARD);
    g->heap = 1; g->blk = blk;
+   if (nvallocs < 32) { vallocs[nvallocs].name = name; vallocs[nvallocs].n = n; nvallocs++; }
+   if (!strcmp(name, "samplesOut1_tmp_storage1") && g_nChInt >= 1 && n % g_nChInt == 0) {
+      /* the two rows samplesOut1_tmp[ 0 ], samplesOut1_tmp[ 1 ] as separate regions (an access one past a row shows up) */
+      long row = n / g_nChInt; vreg *t;
+      t = vreg_add("tmp0", blk + GUARD, row, esz, 0); t->zlo = GUARD; t->zhi = g_nChInt == 2 ? 0 : GUARD;
+      if (g_nChInt == 2) { t = vreg_add("tmp1", blk + GUARD + row * esz, row, esz, 0); t->zhi = GUARD; }
+   }
    if (!strcmp(name, "psDecCtrl")) {          /* ALLOC( psDecCtrl, 1, silk_decoder_control ) in silk_decode_frame: its arrays */
       silk_decoder_control *ctl = (silk_decoder_control *)(blk + GUARD);
       memset(ctl, 0, sizeof(*ctl));
@@ -53,7 +61,14 @@ void *vrec_alloc(const char *name, long n, long esz)
    }
    return blk + GUARD;
 }
-static void vreg_reset(void) { int i; for (i = 0; i < nregs; i++) if (regs[i].heap) free(regs[i].blk); nregs = 0; }
+static void vreg_reset(void) { int i; for (i = 0; i < nregs; i++) if (regs[i].heap) free(regs[i].blk); nregs = 0; nvallocs = 0; }
+static void print_allocs(const char *const *names, int nn)
+{
+   int i, j, first = 1;
+   printf(" alloc{");
+   for (j = 0; j < nn; j++) for (i = 0; i < nvallocs; i++) if (!strcmp(vallocs[i].name, names[j])) { printf("%s%s=%ld", first ? "" : " ", names[j], vallocs[i].n); first = 0; break; }
+   printf("}");
+}
 
 static void vtouch(const void *addr, long size, int wr)
 {
@@ -122,6 +137,7 @@ typedef struct {
 static const char *const core_names[] = {"sLTP", "sLTP_Q15", "res_Q14", "sLPC_Q14", "exc_Q14", "outBuf", "sLPC_Q14_buf",
                                          "PredCoef_Q12", "LTPCoef_Q14", "Gains_Q16", "pitchL", "xq", "pulses"};
 
+static const char *const alloc_names[] = {"pulses", "sLTP", "sLTP_Q15", "res_Q14", "sLPC_Q14", "sLTP_Q14", "exc_buf", "CNG_sig_Q14", "unused"};
 static void do_core(vrng *r, const core_case *cc)
 {
    silk_decoder_state *st = (silk_decoder_state *)calloc(1, sizeof(*st));
@@ -171,7 +187,7 @@ static void do_core(vrng *r, const core_case *cc)
       recording = 1;
       verif_decode_core(st, ctl, xq, pulses, 0);
       recording = 0; vjmp_armed = 0;
-      printf("O OK "); print_extents(core_names, (int)(sizeof(core_names) / sizeof(core_names[0]))); printf("\n");
+      printf("O OK "); print_extents(core_names, (int)(sizeof(core_names) / sizeof(core_names[0]))); print_allocs(alloc_names + 1, 4); printf("\n");
    } else {
       recording = 0; vjmp_armed = 0;
       printf("O ABORT\n");
@@ -311,7 +327,8 @@ static void do_frame(silk_decoder_state *st, vrng *r, int lost)
       printf("} top{"); print_extents_ph(top_names, NEL(top_names), 3);
       printf("} cng{"); print_extents_ph(cng_names, NEL(cng_names), 4);
       get_extent("xq", 5, &rmin, &rmax, &wmin, &wmax);
-      printf("} glue{xq:r="); pext(rmin, rmax); printf(",w=%s} st=", (wmin > wmax || (wmin >= 0 && wmax < F)) ? "ok" : "OOB");
+      printf("} glue{xq:r="); pext(rmin, rmax); printf(",w=%s}", (wmin > wmax || (wmin >= 0 && wmax < F)) ? "ok" : "OOB");
+      print_allocs(alloc_names, 9); printf(" st=");
       print_state(st); printf("\n");
    } else {
       recording = 0; vjmp_armed = 0; cur_phase = 0; last_abort = 1;
@@ -424,6 +441,7 @@ silk_decoder_state *verif_dec_channel(void *d, int n);
 stereo_dec_state *verif_dec_stereo(void *d);
 int verif_dec_nch_internal(void *d);
 int verif_dec_prev_dom(void *d);
+int verif_dec_nch_api(void *d);
 
 static vrng *ostub_r; static int ostub_dom_script = 0, ostub_dom_used = 0;
 opus_int vstub_decode_frame(silk_decoder_state *psDec, ec_dec *rd, opus_int16 pOut[], opus_int32 *pN, opus_int lostFlag, opus_int condCoding, int arch)
@@ -434,11 +452,13 @@ opus_int vstub_decode_frame(silk_decoder_state *psDec, ec_dec *rd, opus_int16 pO
    *pN = psDec->frame_length;
    return 0;
 }
-void vstub_stereo_decode_pred(ec_dec *rd, opus_int32 pred_Q13[]) { (void)rd; pred_Q13[0] = vrange(ostub_r, -8000, 8000); pred_Q13[1] = vrange(ostub_r, -8000, 8000); }
+void vstub_stereo_decode_pred(ec_dec *rd, opus_int32 pred_Q13[]) { (void)rd; ostub_dom_used = 0;   /* the last call is the one of dec_API.c:286; it precedes the decisive mid-only decision */
+   pred_Q13[0] = vrange(ostub_r, -8000, 8000); pred_Q13[1] = vrange(ostub_r, -8000, 8000); }
 void vstub_stereo_decode_mid_only(ec_dec *rd, opus_int *dom) { (void)rd; *dom = ostub_dom_script; ostub_dom_used = ostub_dom_script; }
 
-static const char *const out_names[] = {"samplesOut1_tmp_storage1", "samplesOut2_tmp", "samplesOut", "sMid", "sSide", "pred_prev_Q13",
+static const char *const out_names[] = {"tmp0", "tmp1", "samplesOut2_tmp", "samplesOut", "sMid", "sSide", "pred_prev_Q13",
                                         "delayBuf0", "delayBuf1"};
+static const char *const out_allocs[] = {"samplesOut1_tmp_storage1", "samplesOut2_tmp"};
 static void run_out(uint64_t seed, long ninst)
 {
    static const int apis[5] = {8000, 12000, 16000, 24000, 48000};
@@ -453,7 +473,7 @@ static void run_out(uint64_t seed, long ninst)
       verif_InitDecoder(dec);
       memset(&ctl, 0, sizeof(ctl));
       for (step = 0; step < calls; step++) {
-         int lost, newPacket = left == 0, i, F, fs, stm, hasSide, prevDom; opus_int32 nOut = 0; ec_dec rd; opus_res *so; long N;
+         int lost, newPacket = left == 0, i, F, fs, stm, hasSide, prevDom, sst; opus_int32 nOut = 0; ec_dec rd; opus_res *so; long N;
          if (newPacket) {
             nChInt = nChAPI == 1 ? (vchance(&r, 85) ? 1 : 2) : (vchance(&r, 65) ? 2 : 1);
             if (vchance(&r, 30) || step == 0) intHz = ints[vbelow(&r, 3)];
@@ -468,6 +488,7 @@ static void run_out(uint64_t seed, long ninst)
          ctl.payloadSize_ms = lost && newPacket ? (pms > 20 ? 20 : pms) : pms;
          stm = nChInt == 1 && verif_dec_nch_internal(dec) == 2 && intHz == 1000 * verif_dec_channel(dec, 0)->fs_kHz;
          prevDom = verif_dec_prev_dom(dec);
+         sst = nChAPI == 2 && nChInt == 2 && (verif_dec_nch_api(dec) == 1 || verif_dec_nch_internal(dec) == 1);
          /* the caller's buffer: frame of at most 20 ms at the API rate, per channel */
          N = (long)20 * apiHz / 1000;
          vreg_reset();
@@ -477,6 +498,7 @@ static void run_out(uint64_t seed, long ninst)
          vreg_add("pred_prev_Q13", verif_dec_stereo(dec)->pred_prev_Q13, 2, sizeof(opus_int16), 0);
          vreg_add("delayBuf0", verif_dec_channel(dec, 0)->resampler_state.delayBuf, 48, sizeof(opus_int16), 0);
          vreg_add("delayBuf1", verif_dec_channel(dec, 1)->resampler_state.delayBuf, 48, sizeof(opus_int16), 0);
+         g_nChInt = nChInt;
          vjmp_armed = 1;
          if (sigsetjmp(vjmp, 1) == 0) {
             cur_phase = 0; recording = 1;
@@ -484,11 +506,16 @@ static void run_out(uint64_t seed, long ninst)
             recording = 0; vjmp_armed = 0;
             fs = verif_dec_channel(dec, 0)->fs_kHz; F = verif_dec_channel(dec, 0)->frame_length;
             hasSide = lost ? !prevDom : !ostub_dom_used;
-            printf("I silkparams synthout %d %d %d %d %d %d %d %d\n", fs, F / (5 * fs), nChInt, nChAPI, apiHz, hasSide, stm, lost);
-            printf("O OK n=%d ", (int)nOut); print_extents(out_names, NEL(out_names)); printf("\n");
+            printf("I silkparams synthout %d %d %d %d %d %d %d %d %d\n", fs, F / (5 * fs), nChInt, nChAPI, apiHz, hasSide, stm, lost, sst);
+            printf("O OK n=%d top{", (int)nOut); print_extents_ph(out_names, NEL(out_names), 0);
+            printf("} dec{"); print_extents_ph(out_names, 2, 1);
+            printf("} ms{"); print_extents_ph(out_names, NEL(out_names), 2);
+            printf("} res0{"); print_extents_ph(out_names, NEL(out_names), 3);
+            printf("} res1{"); print_extents_ph(out_names, NEL(out_names), 4);
+            printf("}"); print_allocs(out_allocs, 2); printf("\n");
          } else {
             recording = 0; vjmp_armed = 0;
-            printf("I silkparams synthout %d %d %d %d %d %d %d %d\nO ABORT\n", intHz / 1000, 0, nChInt, nChAPI, apiHz, 0, stm, lost);
+            printf("I silkparams synthout %d %d %d %d %d %d %d %d %d\nO ABORT\n", intHz / 1000, 0, nChInt, nChAPI, apiHz, 0, stm, lost, sst);
             vreg_reset(); break;
          }
          vreg_reset();
